@@ -138,14 +138,15 @@ def veq(a, b):
     return a == b
 
 
-def legacy_text(ref):
+def legacy_text(ref, numeric_segment=False):
     """The reference dict rendered in the pre-2.0 key=value format."""
     lines = []
     for k in sorted(ref):
         v = ref[k]
         if k == "preprocessing_options":
             continue   # did not exist in the legacy format
-        if k == "segment":
+        if k == "segment" and not numeric_segment:
+            # oldest files name the segment, later ones number it
             v = {0: "approach", 1: "retract"}.get(v, v)
         elif isinstance(v, list):
             v = ",".join(str(x) for x in v)
@@ -393,7 +394,7 @@ class ProfileEngine:
             elif r < 0.72:
                 ops.append({"op": "get_fit_params"})
             elif r < 0.8:
-                ops.append({"op": "legacy"})
+                ops.append({"op": "legacy", "numeric": rng.random() < 0.5})
             else:
                 ops.append({"op": "setup", "script": self.gen_script(rng)})
         for op in ops:
@@ -565,7 +566,8 @@ class ProfileEngine:
                     elif kind == "legacy":
                         full = dict(ref)
                         full.update(explicit)
-                        path.write_text(legacy_text(full))
+                        path.write_text(legacy_text(
+                            full, numeric_segment=bool(op.get("numeric"))))
                         # options do not exist in the legacy format: the
                         # default applies afterwards
                         ref["preprocessing_options"] = {}
@@ -919,6 +921,12 @@ class ProfileEngine:
                 f"{ref['range_type']!r}, preprocessing "
                 f"{ref['preprocessing']}", i)
         probes["batch fit run"] += 1
+        # the batch fit reads the fit parameters through get_fit_params,
+        # which writes every entry back into the profile (write-through)
+        exp_p = self.expected_params(ref, explicit)
+        for n in exp_p:
+            explicit[f"fit param {n} value"] = exp_p[n].value
+            explicit[f"fit param {n} vary"] = exp_p[n].vary
         # expected rows: recompute each curve independently
         import afmformats
         rows = (outdir / "statistics.tsv").read_text().splitlines()
